@@ -1,6 +1,7 @@
 import StepModel.P21Safe
 import StepModel.P21SafeLoops
 import StepModel.P21SafeData
+import StepModel.P21SafeOwn
 import StepModel.Generated.C05Buffers
 /-! Line-protocol driver for the C05 model (same requests as `harness/h_p21safe fn`):
     `<idx> <fn> <hex bytes | -> [<int> [<int>]]`   →   `R <idx> <answer>`
@@ -82,6 +83,15 @@ def answer (fn : String) (bytes : List UInt8) (a1 a2 : Option Nat) : String :=
   | "readdata1" =>
     showData (readData1 ⟨fun _ => false, knownC05a, fun _ => false⟩ C05.entNmArrGuard C05.skipInstanceSkipsComments false C05.readCommentIters
       C05.maxErrorCount fuel (IS.ofBytes bytes))
+  | "aggrown" =>
+    -- first run of the ownership model that is not ok, over both modes, 0..3 elements and the three ways out
+    let cfgs := [("STEPaggregate", C05.aggrDeletes), ("EntityAggregate", C05.entityAggrDeletes), ("SelectAggregate", C05.selectAggrDeletes)]
+    let bad := cfgs.filterMap (fun (nm, cfg) =>
+      ([true, false].flatMap fun a => [0, 1, 2, 3].flatMap fun k => [AggrExit.closed, .missingClose, .giveUp].filterMap fun e =>
+        match aggrRun cfg a true k e with
+        | .ok _ => none
+        | o => some s!"{nm}: assign={a} elements={k} exit={repr e} -> {repr o}").head?)
+    if bad.isEmpty then "ok safe" else "unsafe " ++ String.intercalate "; " bad
   | "subsuperb" =>
     showLoop (fun _ => "") (createSubSuper C05.entNmArrGuard fuel (IS.ofBytes bytes))
   | "readdata1w" =>
